@@ -14,7 +14,7 @@ import scipy.sparse as sps
 
 import porepy as pp
 from porepy.grids.mortar_grid import MortarSides
-from engines.history import Op, run_history
+from engines.history import Observer, Op, run_history
 from simkit.runner import Workload
 from simkit.trace import Trace, Violation
 
@@ -35,7 +35,7 @@ ASSUMPTIONS = [
 ]
 PROBES = ["remove_0d", "remove_with_interfaces", "remove_highest_dim", "remove_last_subdomain", "replace_by_copy", "replace_1d_refined", "replace_0d",
           "replace_mortar_sides", "add_several_at_once", "codim0_interface", "codim2_interface", "two_subdomains_same_dim", "only_0d_left_boundaries_raises",
-          "rejected_existing_grid", "rejected_existing_interface", "rejected_codim3", "meshed_start", "empty_start", "ge_5_subdomains", "replace_both_ends_in_one_call"]
+          "rejected_existing_grid", "rejected_existing_interface", "rejected_codim3", "meshed_start", "empty_start", "ge_5_subdomains", "replace_both_ends_in_one_call", "meshed_start_3d", "observation_sparse", "observation_end"]
 
 
 def new_grid(dim: int):
@@ -65,15 +65,25 @@ def run_history_c24(ch, tr: Trace) -> None:
     with ch.span("config"):
         meshed = ch.flag()
         if meshed:
-            kind = ch.draw(3)
+            kind = ch.choice([0, 1, 2, 0, 1, 2, 0, 1, 2, 0, 1, 2, 3, 3, 3, 4])  # 3-d starts are ~20x dearer: 1 in 4 meshed runs
             if kind == 0:
                 fr = [np.array([[0, 2], [1, 1]])]
             elif kind == 1:
                 fr = [np.array([[0, 2], [1, 1]]), np.array([[1, 1], [0, 2]])]
                 crossing = True
-            else:
+            elif kind == 2:
                 fr = [np.array([[0, 1], [1, 1]])]
-            mdg = pp.meshing.cart_grid(fr, [2, 2])
+            if kind <= 2:
+                mdg = pp.meshing.cart_grid(fr, [2, 2])
+            else:
+                # 3-d start: two or three mutually orthogonal planes through the cube -> subdomains of all four dimensions
+                # (3 planes: a 0-d intersection point), chains of co-dimension-1 interfaces of dimensions 2, 1 and 0
+                f1 = np.array([[1, 1, 1, 1], [0, 2, 2, 0], [0, 0, 2, 2]])
+                f2 = np.array([[0, 2, 2, 0], [1, 1, 1, 1], [0, 0, 2, 2]])
+                f3 = np.array([[0, 2, 2, 0], [0, 0, 2, 2], [1, 1, 1, 1]])
+                mdg = pp.meshing.cart_grid([f1, f2] if kind == 3 else [f1, f2, f3], [2, 2, 2])
+                crossing = True
+                tr.probe("meshed_start_3d")
             tr.probe("meshed_start")
         else:
             mdg = pp.MixedDimensionalGrid()
@@ -98,7 +108,9 @@ def run_history_c24(ch, tr: Trace) -> None:
             tail = f" [after documented rejection: {poisoned[0]}]" if poisoned[0] else ""
             raise Violation("query_on_consistent_container", f"{what} raised {e!r}{tail}", "query_raised" + ("_after_rejected_add_interface" if poisoned[0] else ""))
 
-    def check(where):
+    def check(where, force=False):
+        if not (force or obs.due()):
+            return
         sfx = "_after_rejected_add_interface" if poisoned[0] else ""
         exp_s = sorted(subs, key=key)
         got_s = real_call("subdomains()", lambda: mdg.subdomains())
@@ -391,14 +403,16 @@ def run_history_c24(ch, tr: Trace) -> None:
         Op("replace_both_ends", 1, op_replace_both_ends, enabled=lambda: bool(real_intf) and not crossing),
         Op("reject", 2, op_reject, enabled=lambda: bool(subs)),
     ]
+    obs = Observer(ch, tr)
     check("construction")
-    run_history(ch, tr, ops, 3, 18)
+    run_history(ch, tr, ops, 3, 18 if len(subs) < 8 else 8, diagnose=lambda w: check(w, force=True))
+    check("the end of the history", force=True)
     tr.emit("end", len(subs), len(pair))
 
 
 WORKLOADS = [
     Workload(
-        name="history", run=run_history_c24, runs={"quick": 12_000, "thorough": 400_000}, chunk=100, run_timeout=30.0,
+        name="history", run=run_history_c24, runs={"quick": 12_000, "thorough": 400_000}, chunk=100, run_timeout=120.0,
         real=["porepy.grids.md_grid.MixedDimensionalGrid (add_subdomains, add_interface, remove_subdomain, replace_subdomains_and_interfaces, all listing/navigation queries, argsort_grids)",
               "pp.BoundaryGrid, pp.MortarGrid (update_mortar/update_primary/update_secondary on meshed interfaces), pp.meshing.cart_grid, pp.refinement.remesh_1d"],
         stub=["synthetic interfaces use MortarGrid objects without projections (container-level operations only)"],
